@@ -345,3 +345,37 @@ def stale_size(ck, S, rid):
               key="rotateIfNeeded|stale-size")
     else:
         ck.ob(rid, sitestr(S.m["rotateIfNeeded"]), True, "every size of the active file is read after the last rotation that can precede its use (%d uses of held sizes)" % n_uses, key="rotateIfNeeded|stale-size")
+
+
+NARROW = ("int", "unsigned int", "short", "unsigned short", "char", "unsigned char", "signed char", "qint32", "quint32", "qint16", "quint16", "uint", "ushort", "bool")
+
+
+def size_not_narrowed(ck, S, rid):
+    """QFile::size() is a qint64; held in an int it wraps at 2 GiB: with a limit near INT_MAX (or an existing file of 2 GiB and more) the sum
+    goes negative and the file is never rotated again"""
+    n_reads, bad = 0, []
+    for fn in S.flat_units():
+        for n in fn.all_nodes():
+            if is_call(n, ("QFileDevice::size", "QFile::size", "QIODevice::size", "QFileDevice::pos", "QIODevice::pos", "QFileInfo::size")):
+                n_reads += 1
+            # implicit conversions are not nodes of the fact base: compare the declared type with the initialiser's / assigned value's type
+            pairs = []
+            if n.get("k") == "decl":
+                pairs = [((v.get("type") or ""), v.get("init")) for v in n.get("vars", []) if isinstance(v.get("init"), dict) and not v.get("auto")]
+            elif n.get("k") == "binop" and n.get("op") == "=" and isinstance(n.get("lhs"), dict) and isinstance(n.get("rhs"), dict):
+                pairs = [((n["lhs"].get("type") or ""), n["rhs"])]
+            for t_, e_ in pairs:
+                e0 = skip_copies(e_)
+                if t_.replace("const ", "").replace("&", "").strip() in NARROW and (e0.get("type") or "").replace("const ", "").strip() in ("long long", "qint64", "long", "unsigned long long", "quint64", "unsigned long") and \
+                        any(is_call(x, ("QFileDevice::size", "QFile::size", "QIODevice::size", "QFileDevice::pos", "QIODevice::pos", "QFileInfo::size")) for x in walk(e0)):
+                    bad.append((fn, {"e": e0, "type": t_, "l": e0.get("l"), "c": e0.get("c"), "id": e0.get("id")}))
+            if n.get("k") == "cast" and (n.get("castkind") == "IntegralCast") and (n.get("type") or "").replace("const ", "").strip() in NARROW:
+                e = n.get("e")
+                if isinstance(e, dict) and (e.get("type") or "").replace("const ", "").strip() in ("long long", "qint64", "long", "unsigned long long", "quint64", "unsigned long") and \
+                        any(is_call(x, ("QFileDevice::size", "QFile::size", "QIODevice::size", "QFileDevice::pos", "QIODevice::pos", "QFileInfo::size")) for x in walk(e)):
+                    bad.append((fn, n))
+    for fn, n in bad:
+        ck.ob(rid, sitestr(fn, n), False, "%s: the 64-bit file size %s is converted to %s: at 2 GiB it wraps, the rotation test compares a negative number with the limit and the file is never rotated again "
+              "(limit within one record of INT_MAX, or an existing active file of 2 GiB and more)" % (strip_tmpl(fn.name).split("::")[-1], describe(n.get("e"))[:40], n.get("type")), key="size-narrowed|%s" % strip_tmpl(fn.name).split("::")[-1])
+    if not bad:
+        ck.ob(rid, "(rotating sink)", True if n_reads else None, "%d reads of a file size / position, none converted to a type narrower than 64 bits" % n_reads, key="size-narrowed|none")
